@@ -1673,6 +1673,41 @@ func (in *Interp) selectFrom(fr *Frame, base Value, sel *types.Selection, x *ast
 	return nil
 }
 
+// isGoTypesValue: the static type is one of go/types' descriptions of a type or object (types.Type, *types.Named, *types.Var, …).
+func isGoTypesValue(t types.Type) bool {
+	if t == nil {
+		return false
+	}
+	if p, ok := t.(*types.Pointer); ok {
+		t = p.Elem()
+	}
+	n, ok := t.(*types.Named)
+	return ok && n.Obj().Pkg() != nil && n.Obj().Pkg().Path() == "go/types"
+}
+
+// rawTypeArgs: an operand of a format that is a go/types value is printed with its own String method: the text of a type
+// qualified with full import paths ("demo/geo.Point", "encoding/json.Number", for the package being generated even "..Point"),
+// never with the qualifier of the generated file, and without registering an import. Such an operand becomes a RAWTYPE hole, so
+// that a rule can see where it ends up (in an error message it is harmless, in emitted code it is not Go).
+func (in *Interp) rawTypeArgs(fr *Frame, c *ast.CallExpr, args []Value, first int) []Value {
+	if c.Ellipsis.IsValid() {
+		return args
+	}
+	info := in.info(fr)
+	out := args
+	for i := first; i < len(args) && i < len(c.Args); i++ {
+		o, isOp := args[i].(*VOpaque)
+		if !isOp || !isGoTypesValue(info.TypeOf(c.Args[i])) {
+			continue
+		}
+		if &out[0] == &args[0] {
+			out = append([]Value{}, args...)
+		}
+		out[i] = hole("RAWTYPE", o.Origin)
+	}
+	return out
+}
+
 func (in *Interp) sprintf(args []Value) VStr {
 	f, ok := args[0].(VStr)
 	if !ok {
@@ -1964,7 +1999,7 @@ func (in *Interp) call(fr *Frame, c *ast.CallExpr) Value {
 					}
 				}
 			}
-			in.emit(in.sprintf(args), c.Pos())
+			in.emit(in.sprintf(in.rawTypeArgs(fr, c, args, 1)), c.Pos())
 			return VTuple{}
 		case "printer.In":
 			in.indent++
@@ -2057,7 +2092,7 @@ func (in *Interp) call(fr *Frame, c *ast.CallExpr) Value {
 				return &VList{append([]Value{}, l.Elems...)}
 			}
 		case "extfunc:fmt.Sprintf":
-			return in.sprintf(args)
+			return in.sprintf(in.rawTypeArgs(fr, c, args, 1))
 		case "extfunc:fmt.Fprintf", "extfunc:fmt.Fprint":
 			// into a text buffer of the generator
 			var buf *VBuf
